@@ -107,6 +107,7 @@ type WCfg struct {
 	Extra     ws.State // further state bits the application carries in the same value (StateExtended, StateFragmented)
 	Ext3      bool     // a further extension that sets RSV3 on every frame (last in the chain)
 	SwapExt   bool     // the history may replace the extension chain (WOpSetExt)
+	DefWB     int      // Ctor 0 only: what the application has set wsutil.DefaultWriteBuffer to (0: left alone)
 	NoSide    bool     // !Client only: the state value carries neither side bit (not client-side: frames are not masked)
 }
 
@@ -167,6 +168,11 @@ func drawWCfg(r *eng.Run) WCfg {
 		}
 		// A raw size between the two reservation thresholds can leave no room
 		// (documented panic: "buffer is too small"); keep one payload byte.
+	}
+	if c.Ctor == 0 && r.T.Chance(sim.LSize, 1, 3) {
+		// The application has tuned the package-level default.
+		c.DefWB = []int{16, 64, 100, 124, 126, 200, 1024, 70000}[r.T.Int(sim.LSize, 8)]
+		r.Probe("default_write_buffer_tuned")
 	}
 	c.NoFlush = r.T.Chance(sim.LCfg, 1, 5)
 	c.Ext = r.T.Int(sim.LCfg, 4) % 3
@@ -237,6 +243,9 @@ func drawHistory(r *eng.Run, cfg WCfg, maxOps int) []WOp {
 	size := cfg.Size
 	if size <= 0 || cfg.Ctor == 0 {
 		size = 4096
+		if cfg.Ctor == 0 && cfg.DefWB > 0 {
+			size = cfg.DefWB
+		}
 	}
 	drawN := func() int {
 		// Sizes relative to the buffer.
@@ -338,6 +347,9 @@ func NewW(cfg WCfg, dest io.Writer) *wsutil.Writer {
 	st, op := cfg.State(), ws.OpCode(cfg.Op)
 	switch cfg.Ctor {
 	case 0:
+		if cfg.DefWB > 0 {
+			wsutil.DefaultWriteBuffer = cfg.DefWB // put back at the start of the next run
+		}
 		return wsutil.NewWriter(dest, st, op)
 	case 1:
 		return wsutil.NewWriterSize(dest, st, op, cfg.Size)
